@@ -17,7 +17,7 @@ LEVEL = "exploration"
 META = {
     "engine": "model-monitor",
     "technique": "runtime monitor: hover and signatureHelp answers parsed and compared (equivalence, not string equality) with generated declarations, documentation tokens and call-site ground truth; programs validated by gfortran",
-    "text": "Modules with generated declarations (8 type keywords x selector forms incl. nested parentheses and *n x permutations of 0-4 attributes x entity-level dimensions/lengths x PARAMETER values) and Doxygen/FORD documentation in every attachment style are hovered: the declaration shown must be equivalent to the source one, carry exactly the entity's own documentation tokens, and for procedures list the dummies in declared order with their own declarations. Calls with nested calls, array sections, character literals containing commas/parentheses and keyword arguments are probed at every column for the active parameter. Sampled; each module is compiled by gfortran first. Calls pass required dummies by keyword out of order and literals with odd quotes; multi-entity declarations with statement-level attributes, entity shapes/lengths and EXTERNAL statements.",
+    "text": "Modules with generated declarations (8 type keywords x selector forms incl. nested parentheses and *n x permutations of 0-4 attributes x entity-level dimensions/lengths x PARAMETER values) and Doxygen/FORD documentation in every attachment style (trailing documentation also on the last line of a continued declaration) are hovered: the declaration shown must be equivalent to the source one, carry exactly the entity's own documentation tokens, and for procedures list the dummies in declared order with their own declarations. Calls with nested calls, array sections, character literals containing commas/parentheses and keyword arguments are probed at every column for the active parameter. Sampled; each module is compiled by gfortran first. Calls pass required dummies by keyword out of order and literals with odd quotes; multi-entity declarations with statement-level attributes, entity shapes/lengths and EXTERNAL statements.",
     "note": "trusted: the hover declaration parser and the call-site model; equivalence ignores attribute order, blanks and case; attributes outside upstream's supported list (VALUE, VOLATILE, ASYNCHRONOUS, PROTECTED, BIND) and PARAMETER values containing parentheses/brackets/! are exercised as a separate class with recorded findings; cursor positions inside character literals or nested non-procedure parentheses are not judged",
 }
 RULE = ("modules of 6-14 generated declarations (module level, dummies, locals) + documented procedures + calls; evaluations = hovers and signatureHelp positions compared; "
